@@ -34,6 +34,7 @@ type Env struct {
 	pkg       *types.Package
 	depth     int
 	absIdx    map[string]absInfo
+	tparams   map[string]types.Type // type arguments when a generic contract is applied at an instantiated call site
 	pol       int // +1: the formula being translated is assumed (positive position); 0: unknown / goal
 }
 
@@ -178,6 +179,9 @@ func (e *Env) lookup(name string) (SVal, bool) {
 			el := fv.Type().Underlying().(*types.Pointer).Elem()
 			a := fe.addrOf(rv, fv.Type())
 			st := e.state()
+			if !fe.fvStored(fv) && a.kind != aStruct {
+				st = fe.entrySnap() // never assigned by this closure: fixed for the whole call
+			}
 			if a.kind == aStruct {
 				b := a.base
 				return SVal{At: &b, Typ: el, AtOld: e.inOld}, true
@@ -193,6 +197,23 @@ func (e *Env) lookup(name string) (SVal, bool) {
 		if obj := e.pkg.Scope().Lookup(name); obj != nil {
 			return e.objVal(obj)
 		}
+	}
+	// predicates written in another package's contract file name that package's constants unqualified
+	var found types.Object
+	for _, k := range sortedKeys(fe.c.contracts) {
+		if sp := fe.c.pkgs[k]; sp != nil {
+			if obj := sp.Pkg.Scope().Lookup(name); obj != nil {
+				if _, isConst := obj.(*types.Const); isConst {
+					if found != nil {
+						return SVal{}, false
+					}
+					found = obj
+				}
+			}
+		}
+	}
+	if found != nil {
+		return e.objVal(found)
 	}
 	return SVal{}, false
 }
@@ -280,6 +301,9 @@ func (fe *FnEnc) findLocal(name string, l *Loop) *ssa.Alloc {
 // types named in specs
 
 func (e *Env) resolveType(name string) types.Type {
+	if t, ok := e.tparams[name]; ok {
+		return t
+	}
 	switch name {
 	case "Ref":
 		return types.Typ[types.Int]
@@ -600,6 +624,83 @@ func findPrimaryIndex(ex Expr, v string, own map[string]bool, inOld bool) (Expr,
 	return res, resOld, found
 }
 
+// binderType resolves the declared type of a quantified variable; a type-parameter name of a generic predicate
+// (forall key: k) used outside the generic code is inferred from a map the variable indexes.
+func (fe *FnEnc) binderType(b Binder, body Expr, env *Env) (t types.Type) {
+	func() {
+		defer func() {
+			if r := recover(); r != nil {
+				if _, ok := r.(specErr); !ok {
+					panic(r)
+				}
+				t = nil
+			}
+		}()
+		t = env.resolveType(b.Type)
+	}()
+	if t != nil {
+		return t
+	}
+	var found types.Type
+	var walk func(e Expr)
+	try := func(m Expr) {
+		if found != nil {
+			return
+		}
+		defer func() {
+			if r := recover(); r != nil {
+				if _, ok := r.(specErr); !ok {
+					panic(r)
+				}
+			}
+		}()
+		v := fe.tr(m, env)
+		if v.Typ != nil {
+			if mt, ok := v.Typ.Underlying().(*types.Map); ok {
+				found = mt.Key()
+			}
+		}
+	}
+	walk = func(e Expr) {
+		switch x := e.(type) {
+		case EIn:
+			if id, ok := x.K.(EId); ok && id.Name == b.Name {
+				try(x.M)
+			}
+			walk(x.K)
+			walk(x.M)
+		case EIdx:
+			if id, ok := x.I.(EId); ok && id.Name == b.Name {
+				try(x.X)
+			}
+			walk(x.X)
+			walk(x.I)
+		case ESel:
+			walk(x.X)
+		case ECall:
+			for _, a := range x.Args {
+				walk(a)
+			}
+		case EUn:
+			walk(x.X)
+		case EBin:
+			walk(x.L)
+			walk(x.R)
+		case ECond:
+			walk(x.C)
+			walk(x.A)
+			walk(x.B)
+		case EQuant:
+			walk(x.Body)
+		}
+	}
+	walk(body)
+	if found == nil {
+		fe.specFail("unknown type %q", b.Type)
+	}
+	return found
+}
+
 func (fe *FnEnc) trQuant(x EQuant, env *Env) SVal {
 	// predicates are expanded first so that index expressions are visible
 	body0 := fe.expandPreds(x.Body, env, 0)
@@ -621,7 +722,7 @@ func (fe *FnEnc) trQuant(x EQuant, env *Env) SVal {
 	var pats []string
 	allAbs := true
 	for _, b := range x.Vars {
-		t := env.resolveType(b.Type)
+		t := fe.binderType(b, body0, env)
 		fe.nfresh++
 		srt := fe.sorts.sortOf(t)
 		if srt == sInt && len(x.Trigs) == 0 {
@@ -976,6 +1077,68 @@ func (fe *FnEnc) trCall(x ECall, env *Env) SVal {
 		}
 		h := fe.getComp(env.state(), "held", arrSort(sInt, sBool))
 		return SVal{T: tSel(h, addr), Typ: types.Typ[types.Bool]}
+	case "header": // header(w, "Name"): value set on the response writer's header
+		w := fe.tr(x.Args[0], env)
+		k := fe.tr(x.Args[1], env)
+		fe.declFun("resp.hdr", []string{sInt}, sInt)
+		m := Term{app("resp.hdr", ifVal(w.T)), sInt}
+		h := fe.getComp(env.state(), hdrVals, arrSort(sInt, arrSort(sStr, sStr)))
+		return SVal{T: tSel(tSel(h, m), canonKey(fe, k.T)), Typ: types.Typ[types.String]}
+	case "reqheader": // reqheader(r, "Name")
+		r := fe.tr(x.Args[0], env)
+		k := fe.tr(x.Args[1], env)
+		e2 := *env
+		hv := fe.tr(ESel{x.Args[0], "Header"}, &e2)
+		_ = r
+		h := fe.getComp(env.state(), hdrVals, arrSort(sInt, arrSort(sStr, sStr)))
+		return SVal{T: tSel(tSel(h, hv.T), canonKey(fe, k.T)), Typ: types.Typ[types.String]}
+	case "query": // query(r, "name"): r.URL.Query().Get("name")
+		k := fe.tr(x.Args[1], env)
+		raw := fe.tr(ESel{ESel{x.Args[0], "URL"}, "RawQuery"}, env)
+		fe.declFun("url.parseQuery", []string{sStr}, sInt)
+		fe.declFun("url.valuesGet", []string{sInt, sStr}, sStr)
+		return SVal{T: Term{app("url.valuesGet", Term{app("url.parseQuery", raw.T), sInt}, k.T), sStr}, Typ: types.Typ[types.String]}
+	case "status": // status(w): the response status recorded for any writer value (0: none yet)
+		w := fe.mat(fe.tr(x.Args[0], env), env)
+		k := w.T
+		if k.Sort == sIface {
+			k = ifVal(k)
+		}
+		h := fe.getComp(env.state(), respStatus, arrSort(sInt, sInt))
+		return SVal{T: tSel(h, k), Typ: types.Typ[types.Int]}
+	case "same": // same(Type.field) / same(ghost name): a whole ghost component is unchanged since the old state
+		name := exprName(x.Args[0])
+		var cn, cs string
+		if s, ok := ghostCompSorts[name]; ok {
+			cn, cs = name, s
+		} else {
+			cn, cs = fe.resolveModifies(name)
+		}
+		return SVal{T: tEq(fe.getComp(env.cur, cn, cs), fe.getComp(env.old, cn, cs)), Typ: types.Typ[types.Bool]}
+	case "blobReady":
+		return SVal{T: fe.getComp(env.state(), "blobReady", sBool), Typ: types.Typ[types.Bool]}
+	case "mutations": // ghost counter of successful mutating store calls
+		return SVal{T: fe.getComp(env.state(), "mutations", sInt), Typ: types.Typ[types.Int]}
+	case "fault": // ghost flag: a store operation failed for a reason the request did not cause
+		return SVal{T: fe.getComp(env.state(), "fault", sBool), Typ: types.Typ[types.Bool]}
+	case "atoiOK": // strconv.Atoi(s) succeeds
+		a := fe.tr(x.Args[0], env)
+		fe.declFun(q("strconv.Atoi.1"), []string{sStr}, sIface)
+		return SVal{T: tEq(Term{app(q("strconv.Atoi.1"), a.T), sIface}, nilIface), Typ: types.Typ[types.Bool]}
+	case "atoi":
+		a := fe.tr(x.Args[0], env)
+		fe.declFun(q("strconv.Atoi.0"), []string{sStr}, sInt)
+		return SVal{T: Term{app(q("strconv.Atoi.0"), a.T), sInt}, Typ: types.Typ[types.Int]}
+	case "heldAt": // heldAt(addr): raw access to the held-set
+		a := fe.tr(x.Args[0], env)
+		h := fe.getComp(env.state(), "held", arrSort(sInt, sBool))
+		return SVal{T: tSel(h, a.T), Typ: types.Typ[types.Bool]}
+	case "mutexAddr": // the address of a mutex field
+		v := fe.tr(x.Args[0], env)
+		if v.At != nil {
+			return SVal{T: *v.At, Typ: types.Typ[types.Int]}
+		}
+		return SVal{T: v.T, Typ: types.Typ[types.Int]}
 	case "clock":
 		return SVal{T: fe.getComp(env.state(), "clock", sInt), Typ: types.Typ[types.Int]}
 	case "now": // inside old(...): evaluate in the current state
@@ -1138,6 +1301,32 @@ func (fe *FnEnc) trCall(x ECall, env *Env) SVal {
 		m := map[string]Expr{}
 		for i, pn := range p.Params {
 			m[pn] = x.Args[i]
+		}
+		// a predicate written for a generic type, applied to an instantiation: bind the type parameters
+		for _, a := range x.Args {
+			func() {
+				defer func() {
+					if r := recover(); r != nil {
+						if _, ok := r.(specErr); !ok {
+							panic(r)
+						}
+					}
+				}()
+				v := fe.tr(a, env)
+				if n, ok := derefNamed(v.Typ); ok && n.TypeArgs() != nil && n.TypeArgs().Len() > 0 {
+					tps := n.Origin().TypeParams()
+					tp := map[string]types.Type{}
+					for k, t := range e2.tparams {
+						tp[k] = t
+					}
+					for i := 0; i < tps.Len() && i < n.TypeArgs().Len(); i++ {
+						if _, isTP := n.TypeArgs().At(i).(*types.TypeParam); !isTP {
+							tp[tps.At(i).Obj().Name()] = n.TypeArgs().At(i)
+						}
+					}
+					e2.tparams = tp
+				}
+			}()
 		}
 		return fe.tr(substExpr(p.Body, m), &e2)
 	}
